@@ -70,6 +70,16 @@ func (vc *VC) verifyFunction() {
 	}
 	for i := 0; i < sig.Params().Len(); i++ {
 		bind(sig.Params().At(i), "p")
+		if ct != nil && ct.Options["assume-nonnil-params"] != "" {
+			p := sig.Params().At(i)
+			switch p.Type().Underlying().(type) {
+			case *types.Pointer, *types.Interface, *types.Signature:
+				if t, ok := st.locals[p]; ok {
+					vc.assume(st, fmt.Sprintf("(not (= %s 0))", t))
+					vc.noteAssumption(fmt.Sprintf("%s: pointer / interface / function parameters are non-nil (caller obligation)", fi.Key))
+				}
+			}
+		}
 	}
 	// free variables of a closure verified standalone: one unconstrained value each (typed ranges assumed)
 	if fi.Lit != nil {
